@@ -181,11 +181,28 @@ def _priced_pool_ok(site):
         # names one pool per setting); atoms are the same objects, so the two readings are merged
         groups = {k: {s_: list(v_) for s_, v_ in d.items()} for k, d in groups0.items()}
         if flag is not None:
+            # the forcing itself is evaluated on the unrestricted expressions: an atom found along the restricted paths is forced through the comparison
+            # evaluated in the same block
+            zero_u = {}
+            for e_u, c_u, bi_u in q.pick_atoms(b, lambda c: c.startswith("Eq(0, ")):
+                if c_u.startswith("Eq(0, "):
+                    zero_u.setdefault(bi_u, e_u)
             with b.restricted(fb.reach):
-                for k, d in _groups().items():
-                    for s_, v_ in d.items():
-                        cur = groups.setdefault(k, {}).setdefault(s_, [])
-                        cur.extend(x for x in v_ if x not in cur)
+                found = []
+                for e_r, c_r, bi_r in q.pick_atoms(b, want):
+                    if not want(c_r):
+                        continue
+                    cm = q.as_cmp(e_r[1] if e_r[0] == "not" else e_r)
+                    if not cm:
+                        continue
+                    subj = cm[2] if q.const_val(cm[1]) == 0 else cm[1]
+                    found.append((bi_r, "lefts" if c_r.endswith(".lefts)") else "rights", _pools_named(_resolved_sig(b, subj))))
+            for bi_r, side_, pks in found:
+                if bi_r in zero_u and bi_r in fb.reach:
+                    for pk in pks:
+                        cur = groups.setdefault(pk, {}).setdefault(side_, [])
+                        if zero_u[bi_r] not in cur:
+                            cur.append(zero_u[bi_r])
         # pools read at all under this setting (a value joined from both branches names the pools of both; only one branch runs)
         used = set()
         for gb, ge in q.call_exprs(b, "SmtMapping::get"):
